@@ -1,5 +1,135 @@
 import Driver.Common
-/-! Driver for C12 (stub: not built yet). -/
-def main (_args : List String) : IO UInt32 := do
-  IO.eprintln "C12: driver not implemented"
-  return 2
+import CoapVerif.Model.Ownership
+import CoapVerif.Spec.Ownership
+/-!
+Driver for C12.  Input: `scn …` line, then ` | trace ev;ev;…` as produced by harness/c12.
+`judge`: the typestate monitor (proved equivalent to `Spec.Ownership.specOK`) over the recorded trace; harness marks
+`changed`, `leak`, `panic` are violations by themselves.
+`model`: for `path` scenarios, the projection of the recorded trace on the objects of the exchange (first lifetime of
+each) must equal the path program `Model.Ownership.processReceived` for the handler operations of the scenario.
+-/
+namespace Driver.C12
+open CoapVerif CoapVerif.Spec.Ownership CoapVerif.Model.Ownership
+
+inductive Item
+  | ev (e : Ev)
+  | mark (kind : String) (o : Nat)
+  | bad (s : String)
+
+def parseItem (s : String) : Item :=
+  match words s with
+  | ["acq", n] => match n.toNat? with | some n => .ev (.acq n) | none => .bad s
+  | ["rel", n] => match n.toNat? with | some n => .ev (.rel n) | none => .bad s
+  | ["hold", n] => match n.toNat? with | some n => .ev (.hold n) | none => .bad s
+  | ["unhold", n] => match n.toNat? with | some n => .ev (.unhold n) | none => .bad s
+  | ["poison", n, "bad"] => match n.toNat? with | some n => .ev (.poisonBad n) | none => .bad s
+  | ["poison", _, "ok"] => .mark "poison-ok" 0
+  | [k, n] => match n.toNat? with | some n => .mark k n | none => .bad s
+  | _ => .bad s
+
+def parseTrace (s : String) : List Item :=
+  if s = "-" then [] else (s.splitOn ";").map parseItem
+
+def fmtViol : Viol → String
+  | .doubleRelease o => s!"double release of message object {o}"
+  | .releasedWhileAppHolds o => s!"message object {o} released/recycled while the application holds it"
+  | .handedOutReleased o => s!"application was handed message object {o} which sits in the pool"
+  | .writtenAfterRelease o => s!"message object {o} was written after its release (poison damaged)"
+
+def judge (items : List Item) : String :=
+  match items.findSome? (fun i => match i with
+      | .bad s => some s!"unparsable trace item `{s}`"
+      | .mark "changed" o => some s!"content of message object {o} changed while the application held it"
+      | .mark "leak" o => some s!"a pooled (released) message object {o} was used: poison values seen on the wire or by the application"
+      | .mark "panic" _ => some "panic"
+      | _ => none) with
+  | some e => s!"violates {e}"
+  | none =>
+    let evs := items.filterMap (fun i => match i with | .ev e => some e | _ => none)
+    match monitor Store.init evs with
+    | some v => s!"violates {fmtViol v}"
+    | none => s!"ok {evs.length}"
+
+def evObj : Ev → Nat
+  | .acq o | .rel o | .hold o | .unhold o | .poisonBad o => o
+
+/-- projection used for the path-program correspondence: rel / hold / unhold of the exchange's objects, first lifetime only -/
+def project (items : List Item) : List Ev := Id.run do
+  let mut active : List Nat := []   -- objects of the exchange, from their mark to their release
+  let mut out : List Ev := []
+  for i in items do
+    match i with
+    | .mark k o => if k == "isreq" || k == "isresp" || k == "fresh" then active := o :: active
+    | .ev e =>
+      let o := evObj e
+      if active.contains o then
+        match e with
+        | .rel _ => out := out ++ [e]; active := active.filter (· ≠ o)
+        | .hold _ | .unhold _ => out := out ++ [e]
+        | _ => pure ()
+    | _ => pure ()
+  return out
+
+def parseOps (s : String) (fresh : List Nat) : List HandlerOp := Id.run do
+  let mut f := fresh
+  let mut ops : List HandlerOp := []
+  for c in s.toList do
+    match c with
+    | 'S' => match f with | x :: r => ops := ops ++ [.setMessage x]; f := r | [] => pure ()
+    | 'W' => match f with | x :: r => ops := ops ++ [.swap x]; f := r | [] => pure ()
+    | 'R' => ops := ops ++ [.releaseSwapped]
+    | 'H' => ops := ops ++ [.hijack]
+    | _ => pure ()
+  return ops
+
+def fmtEv : Ev → String
+  | .acq o => s!"acq {o}" | .rel o => s!"rel {o}" | .hold o => s!"hold {o}" | .unhold o => s!"unhold {o}" | .poisonBad o => s!"poisonbad {o}"
+
+/-- expected projection for a `path` scenario: the library's path program, then (if the request was hijacked) the
+    application ends its hold and releases the request itself -/
+def expectedPath (tcp : Bool) (req resp : Nat) (ops : List HandlerOp) : List Ev :=
+  let base := (processReceived tcp req resp ops).filter (fun e => match e with | .acq _ => false | _ => true)
+  if ops.contains .hijack then
+    (base.filter (fun e => e != .unhold req)) ++ [.unhold req, .rel req]
+  else base
+
+def model (scn : List String) (items : List Item) : String :=
+  match scn with
+  | ["scn", tr, "path", opsS] =>
+    let req := items.findSome? (fun i => match i with | .mark "isreq" o => some o | _ => none)
+    let resp := items.findSome? (fun i => match i with | .mark "isresp" o => some o | _ => none)
+    let fresh := items.filterMap (fun i => match i with | .mark "fresh" o => some o | _ => none)
+    match req, resp with
+    | some req, some resp =>
+      -- a recycled object may serve as a fresh one again: only exchanges whose objects are pairwise distinct are comparable
+      let objs := req :: resp :: fresh
+      if objs.eraseDups.length ≠ objs.length then "skip reused-object"
+      else
+        let exp := expectedPath (tr == "tcp") req resp (parseOps opsS fresh)
+        let got := project items
+        if exp == got then "match"
+        else s!"differs expected [{", ".intercalate (exp.map fmtEv)}] observed [{", ".intercalate (got.map fmtEv)}]"
+    | _, _ => "differs handler was not run"
+  | _ => "n/a"
+
+def handle (mode : String) (line : String) : String :=
+  match line.splitOn " | trace " with
+  | [scn, tr] =>
+    let items := parseTrace tr
+    if mode == "judge" then judge items else model (words scn) items
+  | _ => "bad-op"
+
+end Driver.C12
+
+def main (args : List String) : IO UInt32 := do
+  let stdin ← IO.getStdin
+  let stdout ← IO.getStdout
+  match args with
+  | [mode] =>
+    if mode == "judge" || mode == "model" then
+      Driver.forLines stdin fun l => stdout.putStrLn (Driver.C12.handle mode l)
+      stdout.flush
+      return 0
+    else
+      IO.eprintln "usage: drv_c12 model|judge"; return 2
+  | _ => IO.eprintln "usage: drv_c12 model|judge"; return 2
